@@ -146,9 +146,9 @@ func (c *Ctx) Thorough() bool { return c.Tier == "thorough" }
 // Rand returns an additional named stream for this case.
 func (c *Ctx) Rand(stream string) *Rand { return NewRand(c.Seed, c.Prop, stream, c.Index) }
 
-func (c *Ctx) Eval(n int)             { c.S.Evaluations += int64(n) }
-func (c *Ctx) Cmp(n int)              { c.S.Comparisons += int64(n) }
-func (c *Ctx) Feature(name string)    { c.S.Features[name]++ }
+func (c *Ctx) Eval(n int)               { c.S.Evaluations += int64(n) }
+func (c *Ctx) Cmp(n int)                { c.S.Comparisons += int64(n) }
+func (c *Ctx) Feature(name string)      { c.S.Features[name]++ }
 func (c *Ctx) FeatureN(n string, k int) { c.S.Features[n] += int64(k) }
 func (c *Ctx) Observe(name string, n int) {
 	c.S.Observed[name] += int64(n)
@@ -158,11 +158,11 @@ func (c *Ctx) ObserveMax(name string, n int) {
 		c.S.Observed[name] = int64(n)
 	}
 }
-func (c *Ctx) Skip(name string)        { c.S.Skipped[name]++ }
-func (c *Ctx) Shape(sig string)        { c.S.Shapes[HashString(sig)] = true }
-func (c *Ctx) Digest(key, val string)  { c.S.Digests[key] = val }
-func (c *Ctx) Note(key, val string)    { c.S.Notes[key] = val }
-func (c *Ctx) WantSample() bool        { return len(c.S.Samples) < maxSamples }
+func (c *Ctx) Skip(name string)       { c.S.Skipped[name]++ }
+func (c *Ctx) Shape(sig string)       { c.S.Shapes[HashString(sig)] = true }
+func (c *Ctx) Digest(key, val string) { c.S.Digests[key] = val }
+func (c *Ctx) Note(key, val string)   { c.S.Notes[key] = val }
+func (c *Ctx) WantSample() bool       { return len(c.S.Samples) < maxSamples }
 
 // Sample records one of the actual cases (first few only).
 func (c *Ctx) Sample(v any) {
